@@ -15,7 +15,7 @@ rc=0
 for P in "$@"; do P=$(readlink -f "$P")
   git -C "$WT" checkout -q -- . && git -C "$WT" clean -fdq
   if ! git -C "$WT" apply "$P"; then echo "PATCH-FAILED $P"; rc=1; continue; fi
-  out=$("$V/bin/avcheck" -prop "$PROP" -root "$WT" -no-evidence ${TIER:+-tier $TIER} 2>&1); code=$?
+  out=$("${AVCHECK_BIN:-$V/bin/avcheck}" -prop "$PROP" -root "$WT" -no-evidence ${TIER:+-tier $TIER} 2>&1); code=$?
   name=$(basename "$P")
   if [[ $name == benign-* ]]; then
     if [ $code -eq 0 ]; then echo "OK   silent   $PROP $name"; else echo "FAIL alarm-on-benign $PROP $name"; echo "$out" | grep -E "VIOLATED|UNDECIDED|infrastructure|error" | head -5; rc=1; fi
